@@ -832,3 +832,5 @@ V("c19-benign-ec-import-keywords", "C19", "benign", "R19.8", "EC JWK import pass
   "rfc7518/ec_key.py", "            base64_to_int(obj[\"x\"]),\n            base64_to_int(obj[\"y\"]),\n            curve,\n        )\n        d = base64_to_int", "            x=base64_to_int(obj[\"x\"]),\n            y=base64_to_int(obj[\"y\"]),\n            curve=curve,\n        )\n        d = base64_to_int")
 V("c11-rsa-import-n-via-table", "C11", "break", "R11.17", "RSA public import decodes n with urlsafe_b64decode + int.from_bytes(little)",
   "rfc7518/rsa_key.py", "        numbers = RSAPublicNumbers(base64_to_int(obj[\"e\"]), base64_to_int(obj[\"n\"]))\n        return numbers.public_key", "        numbers = RSAPublicNumbers(base64_to_int(obj[\"e\"]), int.from_bytes(urlsafe_b64decode(to_bytes(obj[\"n\"])), \"little\"))\n        return numbers.public_key")
+V("c11-okp-public-map-misspelt", "C11", "break", "R11.18", "PUBLIC_KEYS_MAP names Ed448 wrongly: a conformant public Ed448 JWK cannot be imported",
+  "rfc8037/okp_key.py", "    \"Ed448\": Ed448PublicKey,", "    \"Ed448x\": Ed448PublicKey,")
